@@ -18,20 +18,31 @@ import json
 import os
 
 GROUPS = [
-    # (name, ops, relative weight: number of shards the enumeration is split into in quick tier)
-    ("elementwise", ["Add", "Sub", "MulElem"], 48),
-    ("mul", ["Mul"], 64),
-    ("unary", ["Scale", "Apply", "CloneFrom", "Copy", "Pow"], 4),
-    ("stack", ["Stack", "Augment"], 96),
-    ("kron", ["Kronecker"], 64),
-    ("rank", ["RankOne", "Outer"], 4),
-    ("product", ["Product"], 256),
-    ("vec", ["MulVec", "AddVec", "SubVec", "MulElemVec", "AddScaledVec", "ScaleVec", "CopyVec", "CloneFromVec"], 2),
-    ("sym", ["AddSym", "CopySym", "ScaleSym", "SymRankOne", "RankTwo", "SymRankK", "SymOuterK"], 4),
-    ("tri", ["ScaleTri", "MulTri", "CopyTri"], 2),
-    ("func1", ["Sum", "Max", "Min", "Trace", "Norm1", "NormInf", "Row", "Col", "Dot"], 2),
-    ("func2", ["Equal", "Inner"], 48),
+    # (name, ops, number of shards the enumeration is split into, max dimension in quick tier)
+    ("elementwise", ["Add", "Sub", "MulElem"], 6, 3),
+    ("mul", ["Mul"], 8, 3),
+    ("unary", ["Scale", "Apply", "CloneFrom", "Copy", "Pow"], 4, 4),
+    ("stack", ["Stack", "Augment"], 12, 3),
+    ("kron", ["Kronecker"], 8, 3),
+    ("rank", ["RankOne", "Outer"], 4, 3),
+    ("product", ["Product"], 32, 3),
+    ("vec", ["MulVec", "AddVec", "SubVec", "MulElemVec", "AddScaledVec", "ScaleVec", "CopyVec", "CloneFromVec"], 4, 4),
+    ("sym", ["AddSym", "CopySym", "ScaleSym", "SymRankOne", "RankTwo", "SymRankK", "SymOuterK"], 4, 3),
+    ("tri", ["ScaleTri", "MulTri", "CopyTri"], 4, 4),
+    ("func1", ["Sum", "Max", "Min", "Trace", "Norm1", "NormInf", "Row", "Col", "Dot"], 4, 4),
+    ("func2", ["Equal", "Inner"], 6, 3),
+    ("div", ["DivElem", "DivElemVec"], 8, 3),
+    ("bandvec", ["MulVecTo", "SolveVecTo", "InverseTri", "Det", "Inverse"], 2, 4),
+    ("solve", ["Solve", "SolveVec", "SolveTo"], 8, 3),
 ]
+# calls with mismatched operand shapes (a shape panic is demanded; Equal answers false)
+MISMATCH = ["Add", "Sub", "MulElem", "Equal", "Mul", "Stack", "Augment", "MulVec", "AddVec", "SubVec", "MulElemVec",
+            "Dot", "AddSym", "SymRankOne", "Trace", "Pow", "RankOne"]
+MISMATCH_SHARDS = 80
+
+
+def w_small(name):
+    return name in ("unary", "vec", "sym", "tri", "func1", "bandvec", "rank")
 
 
 def tla_set(xs):
@@ -52,23 +63,32 @@ def run(ctx):
             name="R1 MatRep refinement maps, all kinds, shapes<=4x4")
 
     # ---- R2: generator + replay -------------------------------------------
-    maxn = 3
     jobs = []
-    for name, ops, w in GROUPS:
-        ns = max(1, w // 8) if th else w
-        take = range(ns) if th else [ctx.seed % ns]
+    for name, ops, w, qn in GROUPS + [("mismatch", MISMATCH, MISMATCH_SHARDS, 3)]:
+        # quick: one seed-chosen shard of every group, dimensions <= qn, one hash-chosen receiver state per
+        # operand tuple; thorough: dimensions <= 4, every receiver state for every operand tuple, 4 shards
+        # of a finer split (all shards of the small groups)
+        if th:
+            maxn = 4
+            ns = w * 3 if w >= 6 else w
+            take = sorted({(ctx.seed + k * max(1, ns // 4)) % ns for k in range(4)})
+        else:
+            maxn, ns = qn, w
+            take = [ctx.seed % ns]
         for sh in take:
-            jobs.append((name, ops, sh, ns))
+            jobs.append((name, ops, sh, ns, maxn, "TRUE" if name == "mismatch" else "FALSE"))
 
-    def one(name, ops, sh, ns):
-        sub = dict(OPS=tla_set(ops), MAXN=maxn, SEED=ctx.seed, SHARD=sh, NSHARDS=ns,
-                   ALLRS="TRUE" if th else "FALSE", WIDE="TRUE" if th else "FALSE")
+    def one(name, ops, sh, ns, maxn, mism):
+        sub = dict(OPS=tla_set(ops), MAXN=maxn, SEED=ctx.seed, SHARD=sh, NSHARDS=ns, MISM=mism,
+                   ALLRS="TRUE" if th else "FALSE", WIDE="TRUE" if th and w_small(name) else "FALSE")
         cases = ctx.gen("matrep/MatOps.tla", "matrep/MatOps.cfg", subst=sub,
                         name="R2 gen %s shard %d/%d n<=%d" % (name, sh, ns, maxn))
         for bn, b in bins.items():
             ctx.replay(b, "matrep", cases, [], name="R2 replay %s shard %d/%d [%s]" % (name, sh, ns, bn))
 
     ctx.parallel([lambda j=j: one(*j) for j in jobs], width=8)
+    ctx.notes.append("representation kinds taken from MatRep.tla AllKinds x Wrappers (84 operand representations "
+                     "incl. wrappers); see per-stage distinct_operand_representations")
 
     ctx.assumptions += [
         "TLC/SANY and the CommunityModules Json module are trusted",
